@@ -254,12 +254,79 @@ def r12_4(ctx, counts: dict[str, int]) -> RuleResult:
     return res
 
 
+def r12_5(ctx, counts: dict[str, int]) -> RuleResult:
+    model: Model = ctx.model
+    res = RuleResult(
+        'R12.5', 'TOKENIZE-NO-GROUP-LEAK',
+        'fn:tokenize returns the substrings between the matches. Python\'s Pattern.split / '
+        're.split interleave the captured groups of the pattern with the tokens, and XPath '
+        'patterns may contain groups: in the function bound to fn:tokenize the tokens of the '
+        'translated pattern are produced from match positions (finditer/search), or from split() '
+        'sliced with the stride `groups + 1` — never from a plain split() of the translated '
+        'pattern (tokenize("xaby", "(a)b") would return ("x", "a", "y")).')
+    funcs = set()
+    for rec in ctx.reg.all_records():
+        if rec.symbol == 'tokenize':
+            ref = rec.method('evaluate') or rec.method('select')
+            if ref is not None and ref.func is not None and ref.origin != 'class':
+                funcs.add(ref.func)
+    if not funcs:
+        raise AnalysisError('function bound to fn:tokenize not located')
+    n = 0
+    for f in sorted(funcs, key=lambda q: q.key):
+        translated = {t.id for st in walk_local(f.node) if isinstance(st, ast.Assign)
+                      and isinstance(st.value, ast.Call)
+                      and dotted(st.value.func).split('.')[-1] == 'translate_pattern'
+                      for t in st.targets if isinstance(t, ast.Name)}
+        compiled = {t.id for st in walk_local(f.node) if isinstance(st, ast.Assign)
+                    and isinstance(st.value, ast.Call)
+                    and dotted(st.value.func) in ('re.compile', 'compile')
+                    and any(isinstance(a, ast.Name) and a.id in translated
+                            or (isinstance(a, ast.Call) and
+                                dotted(a.func).split('.')[-1] == 'translate_pattern')
+                            for a in st.value.args)
+                    for t in st.targets if isinstance(t, ast.Name)}
+        parents: dict[int, ast.AST] = {}
+        for a in ast.walk(f.node):
+            for c in ast.iter_child_nodes(a):
+                parents[id(c)] = a
+        uses_positions = any(isinstance(c, ast.Call) and isinstance(c.func, ast.Attribute)
+                             and c.func.attr in ('finditer', 'search', 'match', 'scanner')
+                             and dotted(c.func.value) in compiled for c in walk_local(f.node))
+        splits = [c for c in walk_local(f.node) if isinstance(c, ast.Call)
+                  and ((isinstance(c.func, ast.Attribute) and c.func.attr == 'split'
+                        and dotted(c.func.value) in compiled)
+                       or (dotted(c.func) == 're.split' and c.args and
+                           isinstance(c.args[0], ast.Name) and c.args[0].id in translated))]
+        n += 1
+        res.instances.append(f'{f.key}: split() of the translated pattern: {len(splits)}, '
+                             f'uses match positions: {uses_positions}')
+        bad = []
+        for c in splits:
+            par = parents.get(id(c))
+            strided = isinstance(par, ast.Subscript) and isinstance(par.slice, ast.Slice) and \
+                par.slice.step is not None and 'groups' in stmt_text(par.slice.step)
+            if not strided:
+                bad.append(c)
+        if bad:
+            res.fail(finding('R12.5', f, bad[0], 'split of a pattern with groups',
+                             f'`{stmt_text(bad[0])[:50]}` splits on the translated XPath pattern: '
+                             f're.split() inserts the captured groups among the tokens '
+                             f'(tokenize("xaby", "(a)b") returns "x", "a", "y")'))
+        elif not splits and not uses_positions:
+            raise AnalysisError(f'{f.key}: neither split() nor a match-position loop located')
+        else:
+            res.ok()
+    counts['tokenize_impls'] = n
+    return res
+
+
 def run(ctx) -> dict:
     counts: dict[str, int] = {}
     from .c13_unicode import r13_3
     from .c13_unicode import r13_4
     results = [r12_1(ctx, counts), r12_2(ctx, counts), r13_3(ctx, counts), r12_4(ctx, counts),
-               r13_4(ctx, counts)]
+               r13_4(ctx, counts), r12_5(ctx, counts)]
     return {
         'results': results, 'counts': counts,
         'explanation':
